@@ -47,6 +47,7 @@ def run(ctx):
         n_readers += 1
         r1_reader(chk, fx, fx.mir[name], bodies, adt, succ)
         r4_strict_reader(chk, fx, name)
+        r6_every_error_is_kept(chk, fx, name)
     chk.floor("C08/R1 reply readers", n_readers, 4)
     # any other ReadXml impl that constructs one of the reply enums' success variant? (fail closed on new readers)
     reply_adts = {a for (_, a, _) in READERS}
@@ -61,6 +62,41 @@ def run(ctx):
     r2_into_result(chk, fx)
     r3_errors_integrity(chk, fx)
     r5_wrappers_keep_the_verdict(chk, fx)
+
+
+def r6_every_error_is_kept(chk, fx, name):
+    """'.. the errors reported are exactly those of the reply, in order': every <rpc-error> the reader parses goes into the list it
+    reports — pushed on the same path, whatever its severity.  (Order and nothing-else are R3: push appends, nothing else mutates.)
+    Decided on explored paths of the reader: an element iteration that parsed an rpc-error and goes on reading has pushed it."""
+    from vlib import absint as A
+    if name not in fx.thir:
+        return
+
+    def hook(fn, args, node, interp):
+        if fn.endswith("rpc::error::Error as netconf::message::ReadXml>::read_xml") or (T.short(fn, 2) == "ReadXml::read_xml" and "rpc::error::Error" in str(node.get("gargs"))) \
+                or (fn.endswith("::read_xml") and "rpc::error::Error" in fn):
+            interp.trace.append(("rpc-error-read", node.get("sp")))
+            return A.ok(("sym", "RPCERR"))
+        if T.short(fn, 2) == "Errors::push" and len(args) == 2:
+            interp.trace.append(("pushed", args[1], node.get("sp")))
+            return ("unit",)
+        return None
+    paths = [p for p in A.Interp(fx, hook=hook, crates=(NC,), max_paths=6000).explore(name) if p.end != "abort"]
+    n = 0
+    for p in paths:
+        rd = [e for e in p.trace if e[0] == "rpc-error-read"]
+        if not rd or p.end != "iter-end":
+            continue
+        n += 1
+        kept = any(e[0] == "pushed" and A.mentions(e[1], lambda x: x == ("sym", "RPCERR")) for e in p.trace)
+        chk.instance("C08/R6", "%s: an <rpc-error> that was parsed is added to the reported list" % short_reader(name), name, loc_of(rd[0][1]), holds=kept,
+                     key="C08/R6 %s parsed-error-not-kept" % short_reader(name),
+                     detail=None if kept else "on a path the parsed error is dropped (by severity, say): the list the caller gets is not the reply's")
+    chk.floor("C08/R6 %s paths that parse an rpc-error" % short_reader(name), n, 1)
+
+
+def short_reader(name):
+    return T.short(T.strip_generics(name.split(" as ")[0].lstrip("<")), 2)
 
 
 def reader_helpers(fx, root):
@@ -189,7 +225,10 @@ def _helper_polarity(b, c):
             v, neg = paths[0].ret, False
             while v[0] == "not":
                 v, neg = v[1], not neg
-            base = {("sym", "EMPTY"): "no-error", ("sym", "NO_ERROR"): "no-error", ("sym", "ANY_ERROR"): "has-error"}.get(v)
+            try:
+                base = {("sym", "EMPTY"): "no-error", ("sym", "NO_ERROR"): "no-error", ("sym", "ANY_ERROR"): "has-error"}.get(v)
+            except TypeError:
+                base = None
             if base is not None:
                 pol = base if not neg else ("has-error" if base == "no-error" else "no-error")
     _HELPERS[callee] = pol
@@ -426,6 +465,17 @@ def r3_errors_integrity(chk, fx):
     cs = [c for c in b.calls()]
     ok = len(cs) == 1 and cs[0].is_fn("Vec::<T, A>::push")
     chk.instance("C08/R3", "Errors::push appends (single Vec::push)", b.name, None, holds=ok, key="C08/R3 Errors::push-not-append")
+    # the predicates every reader's "was any rpc-error collected?" rests on mean what they say: is_empty / len are those of the list itself
+    # (a len that leaves out warnings makes a reply holding only warnings "empty": BareReply reports success for a non-empty reply)
+    from vlib import absint as A
+    for meth, want in (("is_empty", ("Vec::is_empty", "slice::is_empty")), ("len", ("Vec::len", "slice::len"))):
+        mn = "netconf::message::rpc::error::Errors::" + meth
+        if mn not in fx.thir:
+            continue
+        ps = [p for p in A.Interp(fx, crates=(NC,)).explore(mn) if p.end != "abort"]
+        vals = sorted({A.vstr(p.ret) for p in ps if p.ret is not None})
+        ok = len(vals) == 1 and any(vals[0] == "%s(«param:self».inner)" % w for w in want)
+        chk.instance("C08/R3", "Errors::%s is that of the collected list (%s)" % (meth, vals[:2]), mn, None, holds=ok, key="C08/R3 Errors::%s not-the-list's" % meth)
     # aggregates of Errors only in Errors::new (nobody else fabricates an error list)
     for name, b in fx.mir.items():
         if b.crate != NC:
